@@ -935,4 +935,100 @@ theorem run_guard (ops : List Op) : (run ops).guardClosed = true := by
     | nil => intro s h; exact h
     | cons op ops ih => intro s h; exact ih _ (by rw [step_guard]; exact h)
   exact this {} rfl
+/-! ## Part C over time: every connection's view only ever moves forward through `crun` -/
+
+/-- view `v'` is view `v` after some more actions -/
+def VG (v v' : MView) : Prop := ∃ acts, v'.st = crun v.st acts
+/-- the views grew, index by index -/
+inductive Grows : List MView → List MView → Prop
+  | nil : Grows [] []
+  | cons {v v' : MView} {vs vs' : List MView} : VG v v' → Grows vs vs' → Grows (v :: vs) (v' :: vs')
+
+theorem VG.refl (v : MView) : VG v v := ⟨[], rfl⟩
+theorem VG.trans {a b c : MView} (h1 : VG a b) (h2 : VG b c) : VG a c := by
+  obtain ⟨x, hx⟩ := h1; obtain ⟨y, hy⟩ := h2
+  exact ⟨x ++ y, by rw [hy, hx, crun_append]⟩
+theorem Grows.refl : ∀ vs : List MView, Grows vs vs
+  | [] => .nil
+  | v :: vs => .cons (VG.refl v) (Grows.refl vs)
+theorem Grows.trans : ∀ {a b c : List MView}, Grows a b → Grows b c → Grows a c
+  | _, _, _, .nil, .nil => .nil
+  | _, _, _, .cons h1 t1, .cons h2 t2 => .cons (h1.trans h2) (Grows.trans t1 t2)
+
+theorem appAll_grows (f : Nat → MView → List Act) : ∀ (vs : List MView) (i : Nat), Grows vs (appAll f i vs)
+  | [], _ => .nil
+  | v :: vs, i => .cons ⟨f i v, rfl⟩ (appAll_grows f vs (i + 1))
+theorem setClosed_grows (c : Nat) : ∀ (vs : List MView) (i : Nat), Grows vs (setClosed c i vs)
+  | [], _ => .nil
+  | v :: vs, i => .cons (by unfold VG; split <;> exact ⟨[], rfl⟩) (setClosed_grows c vs (i + 1))
+theorem setStamp_grows (c t : Nat) : ∀ (vs : List MView) (i : Nat), Grows vs (setStamp c t i vs)
+  | [], _ => .nil
+  | v :: vs, i => .cons (by unfold VG; split <;> exact ⟨[], rfl⟩) (setStamp_grows c t vs (i + 1))
+
+theorem project_grows (vs : List MView) (c : Nat) (b a : Ctl) : Grows vs (project vs c b a) := appAll_grows _ vs 0
+
+theorem actOn_grows (vs : List MView) (c : Nat) (acts : List Act) : Grows vs (actOn vs c acts) := by
+  unfold actOn
+  split
+  · exact Grows.refl vs
+  · have h1 := appAll_grows (fun i _ => if i = c then acts else []) vs 0
+    simp only []
+    split
+    · exact h1
+    · split
+      · exact h1.trans ((setStamp_grows c _ _ 0).trans (project_grows _ c _ _))
+      · exact h1.trans (project_grows _ c _ _)
+
+theorem flushOne_grows (vs : List MView) (w : Nat × List Outcome) : Grows vs (flushOne vs w) := by
+  unfold flushOne
+  split
+  · exact Grows.refl vs
+  · split
+    · exact Grows.refl vs
+    · exact actOn_grows vs _ _
+
+theorem purgeOne_grows (vs : List MView) (c : Nat) : Grows vs (purgeOne vs c) := by
+  unfold purgeOne
+  split
+  · exact Grows.refl vs
+  · split
+    · exact actOn_grows vs _ _
+    · exact Grows.refl vs
+
+theorem foldl_grows {α : Type} (f : List MView → α → List MView) (hf : ∀ vs x, Grows vs (f vs x)) :
+    ∀ (xs : List α) (vs : List MView), Grows vs (xs.foldl f vs)
+  | [], vs => Grows.refl vs
+  | x :: xs, vs => (hf vs x).trans (foldl_grows f hf xs (f vs x))
+
+theorem mstep_grows (vs : List MView) (op : MOp) : Grows vs (mstep vs op) := by
+  cases op with
+  | send c d o => exact actOn_grows vs c _
+  | disc c close =>
+    simp only [mstep]
+    split
+    · exact (appAll_grows _ vs 0).trans (setClosed_grows c _ 0)
+    · exact appAll_grows _ vs 0
+  | flush ws =>
+    simp only [mstep]
+    split
+    · exact (foldl_grows purgeOne purgeOne_grows _ vs).trans (foldl_grows flushOne flushOne_grows _ _)
+    · exact foldl_grows flushOne flushOne_grows _ _
+
+theorem mrun_grows (pb n : Nat) (a b : List MOp) : Grows (mrun pb n a) (mrun pb n (a ++ b)) := by
+  simp only [mrun, List.foldl_append]
+  exact foldl_grows mstep mstep_grows b _
+
+theorem Grows.get : ∀ {vs vs' : List MView}, Grows vs vs' → ∀ (i : Nat) (v : MView), vs[i]? = some v →
+    ∃ v', vs'[i]? = some v' ∧ VG v v'
+  | _, _, .nil, i, v, h => by simp at h
+  | _, _, .cons hv ht, 0, v, h => by
+    simp only [List.getElem?_cons_zero, Option.some.injEq] at h
+    subst h; exact ⟨_, by simp, hv⟩
+  | _, _, .cons hv ht, i + 1, v, h => by
+    simp only [List.getElem?_cons_succ] at h ⊢
+    exact Grows.get ht i v h
+
+theorem VG.hist {v v' : MView} (h : VG v v') : Ext v.st.accepted v'.st.accepted ∧ Ext v.st.queued v'.st.queued := by
+  obtain ⟨acts, ha⟩ := h
+  rw [ha]; exact crun_hist acts v.st
 end Pox.SendPath
